@@ -57,6 +57,10 @@ pub struct Doc {
   pub violates: Option<String>,
   /// perturbations that can send loading into unbounded recursion run in a child process
   pub isolate: bool,
+  /// object-form fix with `expandEnd: {kind: <this>, pattern: $NEXT, stopBy: end}`: a variable that
+  /// exists only inside the expansion rule
+  #[serde(default)]
+  pub expand_kind: Option<String>,
 }
 
 #[derive(Clone, Debug)]
@@ -95,7 +99,7 @@ pub fn strategy(opts: &SrcOpts) -> BoxedStrategy<Choice> {
       any::<bool>(),
       prop::collection::vec(0u8..12, 1..7),
       any::<bool>(),
-      prop_oneof![4 => Just(0u8), 6 => 1u8..9],
+      prop_oneof![4 => Just(0u8), 6 => 1u8..10],
       0u8..13,
       any::<Index>(),
     ),
@@ -191,7 +195,8 @@ pub fn interpret(corpus: &Corpus, opts: &SrcOpts, ch: &Choice, st: &mut Stats) -
   if let Some(k) = ch.t2 {
     let (r, b) = REPLACES[k as usize % REPLACES.len()];
     transforms.push((
-      "T2".into(),
+      // the dependent transformation sometimes sorts *before* its source by name
+      if k % 2 == 0 { "T2".into() } else { "A2".into() },
       TK::Replace {
         source: "$T1".into(),
         replace: r.into(),
@@ -263,6 +268,7 @@ pub fn interpret(corpus: &Corpus, opts: &SrcOpts, ch: &Choice, st: &mut Stats) -
     object_form: ch.object_form,
     violates: None,
     isolate: false,
+    expand_kind: None,
   };
   perturb(&mut doc, ch, &ctx);
   for l in &built.labels {
@@ -320,8 +326,18 @@ fn perturb(doc: &mut Doc, ch: &Choice, ctx: &RuleCtx) {
         doc.transforms[0].1.set_source("$T1");
         doc.violates = Some("transformation T1 depends on itself".into());
       } else {
-        doc.transforms[0].1.set_source("$T2");
-        doc.violates = Some("transformations T1 and T2 depend on each other".into());
+        let second = format!("${}", doc.transforms[1].0);
+        doc.transforms[0].1.set_source(&second);
+        doc.violates = Some(format!("transformations T1 and {} depend on each other", doc.transforms[1].0));
+      }
+    }
+    9 => {
+      // the fix uses a variable that only the fix's own expansion rule binds
+      if !ctx.kinds.is_empty() {
+        doc.object_form = true;
+        doc.expand_kind = Some(ctx.kinds[ch.kind_pick.index(ctx.kinds.len())].clone());
+        doc.fix.push_str(" $NEXT");
+        doc.violates = Some("fix uses the undefined variable $NEXT (bound only inside expandEnd)".into());
       }
     }
     7 => {
@@ -527,6 +543,13 @@ pub fn doc_yaml(doc: &Doc) -> String {
   if doc.object_form {
     let mut f = serde_yaml::Mapping::new();
     f.insert(ys("template"), ys(&doc.fix));
+    if let Some(k) = &doc.expand_kind {
+      let mut e = serde_yaml::Mapping::new();
+      e.insert(ys("kind"), ys(k));
+      e.insert(ys("pattern"), ys("$NEXT"));
+      e.insert(ys("stopBy"), ys("end"));
+      f.insert(ys("expandEnd"), serde_yaml::Value::Mapping(e));
+    }
     m.insert(ys("fix"), serde_yaml::Value::Mapping(f));
   } else {
     m.insert(ys("fix"), ys(&doc.fix));
